@@ -81,6 +81,33 @@ chk("C05", "model_checking",
     "trace-validated by TLC", "DESIGN.md section 4, C05")
 
 
+chk("C02", "model_checking",
+    "Seeded random well-formed programs (3-8 statements, expression depth 3, function nesting 2, bounded loops and "
+    "recursion; integer boundaries, special floats, non-ASCII strings; probe calls making evaluation order "
+    "observable) and ill-formed variants (undefined name, misplaced break/continue/return, unknown label, return in "
+    "a filter action, mixed-type match arms) are executed by the real scanner/parser/compiler/VM; each execution "
+    "(observation sequence, final value, failed or not, rejected or not) is trace-validated by TLC against the "
+    "reference semantics spec/RefSem.tla (direct evaluation of the abstract syntax) via spec/Conform.tla. The "
+    "reference semantics itself is exercised bounded-exhaustively by the C03/C05/C06/C09/C10 generators.",
+    "Sampled, not exhaustive. Unspecified by the property and not compared: self-reference in a let initialiser, "
+    "assignment to a captured variable, value of a bare nested block, float results outside the dyadic model. "
+    "Trusts the renderer and the value projection.",
+    "TLA+ reference semantics evaluated by TLC as oracle; recorded executions of the implementation trace-validated "
+    "by TLC", "DESIGN.md section 4, C02")
+
+chk("C04", "model_checking",
+    "Bounded-exhaustive scope skeletons: all sequences / nestings of <= 4 (thorough 5) items from {let x, use x, "
+    "assign x, block, function called now and again at the end of its block, if-block} to depth 2 with one "
+    "contended name, with and without an outer binding (6 000+ programs), hand-written closure families (capture "
+    "then mutate, factories, nested parameters, recursion, block-local capture, loop capture) and seeded random "
+    "programs with shadowing. Executions are trace-validated by TLC against RefSem (lexical block scopes, "
+    "by-reference globals, by-value capture at closure creation, static rule for unbound names).",
+    "Assignment to a captured variable inside a closure and self-reference in a let initialiser are unspecified "
+    "and not generated.",
+    "TLA+ reference semantics evaluated by TLC; enumerated programs replayed into the implementation; executions "
+    "trace-validated by TLC", "DESIGN.md section 4, C04")
+
+
 def main():
     props = [json.loads(l)["id"] for l in open(os.path.join(VERIF, "properties.jsonl"))]
     na = [{"property_id": p, "reason": NOT_APPLICABLE.get(p, "check not built yet in this round (planned, see DESIGN.md section 8)")}
